@@ -243,6 +243,10 @@ pub fn case_mode(ctx: &mut Ctx, xml: &str, fragment: bool, ex: &Expect) {
             }
             for p in &problems {
                 ctx.fail("C03", p, "an accepted tree is not sound", entry, xml);
+                if p == "processing-instruction-target-in-a-namespace" {
+                    ctx.fail("C08", "parsed-name-id-denotes-another-expanded-name:processing-instruction-target", "a PI target registered by parsing carries the id of a name in a namespace", entry, xml);
+                    ctx.fail("C02", "processing-instruction-target-in-a-namespace", "a PI target was resolved like an element name", entry, xml);
+                }
             }
             // accepted => serialisation is accepted again and reparses deep-equal.
             // Proved in the model under the guards (C03_accepted_roundtrip): every accepted input is
